@@ -154,7 +154,7 @@ VLspLoaded == SharedResolve(VFiles, R, VImp) = VModFile
 \* validate_import_visibility looks the module up under segs.join("_"); the CLI names a dependency
 \* module_segments.join("_"), the LSP names it by the file stem
 VCliKeyed == TRUE
-VLspKeyed == Len(c.msegs) = 1
+VLspKeyed == TRUE     \* (fix 631bef4: the LSP names dependencies like the CLI; was Len(c.msegs) = 1)
 VCli == CheckerVerdict(c.kind, c.pub, c.ref, c.use, VCliLoaded, VCliKeyed)
 VLsp == CheckerVerdict(c.kind, c.pub, c.ref, c.use, VLspLoaded, VLspKeyed)
 \* the only way a private item is refused is the `from` check; demanded = transcribed exactly there
